@@ -62,6 +62,9 @@ snoopy_tsrm_threadId_t      snoopy_tsrm_getCurrentThreadId        ();
 listNode_t*                 snoopy_tsrm_getCurrentThreadRepoEntry ();
 snoopy_tsrm_threadData_t*   snoopy_tsrm_getCurrentThreadData      ();
 snoopy_tsrm_threadData_t*   snoopy_tsrm_createNewThreadData       (snoopy_tsrm_threadId_t threadId);
+static void                 snoopy_tsrm_atfork_prepare            ();
+static void                 snoopy_tsrm_atfork_parent             ();
+static void                 snoopy_tsrm_atfork_child              ();
 
 
 
@@ -165,6 +168,70 @@ void snoopy_tsrm_init ()
     pthread_mutexattr_init   (&snoopy_tsrm_threadRepo_mutexAttr);
     pthread_mutexattr_settype(&snoopy_tsrm_threadRepo_mutexAttr, PTHREAD_MUTEX_RECURSIVE);
     pthread_mutex_init       (&snoopy_tsrm_threadRepo_mutex, &snoopy_tsrm_threadRepo_mutexAttr);
+
+    // Keep the thread repository usable in children forked from a multithreaded process
+    pthread_atfork(&snoopy_tsrm_atfork_prepare, &snoopy_tsrm_atfork_parent, &snoopy_tsrm_atfork_child);
+}
+
+
+
+/*
+ * snoopy_tsrm_atfork_(prepare|parent|child)
+ *
+ * Description:
+ *     fork() copies the thread repository and its mutex into the child, but
+ *     only the forking thread. If another thread was inside a critical
+ *     section at that instant, the child would inherit a locked mutex that
+ *     nobody is ever going to unlock (and possibly a half-updated list), and
+ *     its first exec call would block forever.
+ *
+ *     Therefore: hold the mutex across fork() (so that no other thread can be
+ *     in the middle of a critical section), release it in the parent, and in
+ *     the child re-initialize it (a recursive mutex records its owner's
+ *     kernel thread ID, which is a different one in the child, so it cannot
+ *     simply be unlocked there) and drop the entries of threads that do not
+ *     exist in the child.
+ *
+ * Params:
+ *     (none)
+ *
+ * Return:
+ *     void
+ */
+static void snoopy_tsrm_atfork_prepare ()
+{
+    pthread_mutex_lock(&snoopy_tsrm_threadRepo_mutex);
+}
+
+static void snoopy_tsrm_atfork_parent ()
+{
+    pthread_mutex_unlock(&snoopy_tsrm_threadRepo_mutex);
+}
+
+static void snoopy_tsrm_atfork_child ()
+{
+    snoopy_tsrm_threadId_t      curTid;
+    listNode_t                 *curNode;
+    listNode_t                 *nextNode;
+    snoopy_tsrm_threadData_t   *tData;
+
+    pthread_mutex_init(&snoopy_tsrm_threadRepo_mutex, &snoopy_tsrm_threadRepo_mutexAttr);
+
+    curTid  = snoopy_tsrm_getCurrentThreadId();
+    curNode = snoopy_tsrm_threadRepo->first;
+    while (NULL != curNode) {
+        nextNode = curNode->next;
+        tData    = curNode->value;
+        if ((NULL == tData) || (0 == pthread_equal(curTid, tData->threadId))) {
+            tData = snoopy_util_list_remove(snoopy_tsrm_threadRepo, curNode);
+            if (NULL != tData) {
+                free(tData->inputdatastorage);
+                free(tData->configuration);
+                free(tData);
+            }
+        }
+        curNode = nextNode;
+    }
 }
 
 
